@@ -1422,6 +1422,15 @@ class Node:
         peer = self._find_connection_peer(conn)
         if peer:
             peer.disconnect_reason = DISCONNECT_REASON_DPR
+            if peer.connection is conn:
+                # the peer may hold a second connection that remains ready,
+                # which is then the one to use
+                for other in list(self.connections.values()):
+                    if (other is not conn and
+                            other.state in PEER_READY_STATES and
+                            self._find_connection_peer(other) is peer):
+                        peer.connection = other
+                        break
 
         self.send_message(conn, answer)
 
